@@ -24,7 +24,10 @@ LEVEL_TEXT = ("Theorems over Gherkin.v: every element is stamped with the number
               "advance the line counter; leading and trailing white space of a line is irrelevant outside doc-strings; And/But/* steps inherit the "
               "type of the preceding step; a keyword line yields the keyword alias written and the stripped rest as name; for every language and "
               "every step keyword, the keyword scan of a line starting with that keyword returns that keyword with the type of its list "
-              "(decided by evaluation over the generated tables); doc-string lines are collected without the delimiter's indentation.  "
+              "(decided by evaluation over the generated tables); doc-string lines are collected without the delimiter's indentation; table "
+              "rows with escaped pipes are read back exactly; at the level of the whole machine a feature of scenarios with any number of tag "
+              "lines above each and Given/When/Then steps is parsed into exactly what was written - keywords, names, step types, tags and line "
+              "numbers - in any language (induction over scenarios, tag lines and step lines).  "
               "Model compared with the real parser on every rendered document; the oracle compares with the abstract tree.")
 LEVEL_NOTE = "Trusted: Coq kernel, generated keyword tables, the harness renderer."
 EXHAUSTIVE = False
